@@ -25,6 +25,8 @@ def _base_value(role, n, batch, dtype, seed, shape=None):
         return r(*batch, n if shape is None else shape[-1], 2)          # (rectangular operators: as many rows as the operator has columns)
     if role == "lhs":
         return r(*batch, 2, n if shape is None else shape[-2])
+    if role == "probes":
+        return r(n if shape is None else shape[-1], 3) + 0.5
     if role in ("init", "test", "lowrank"):
         return r(*batch, n, 1) + 0.5
     if role == "guess":
@@ -148,6 +150,25 @@ def _call(case, op, a, dtype):
                op.root_inv_decomposition().root.to_dense(), op.eigh(), op.svd(), op.pivoted_cholesky(rank=3), op.zero_mean_mvn_samples(2),
                op.clone().to_dense(), op.detach().to_dense(), op.mT.to_dense(), op._preconditioner()]
         return out
+    if name == "inv_quad_logdet_probes":
+        with settings.max_cholesky_size(0), settings.num_trace_samples(3), settings.deterministic_probes(True), settings.max_preconditioner_size(0):
+            settings.deterministic_probes.probe_vectors = a["probes"]
+            try:
+                return [op.inv_quad_logdet(a["rhs"], logdet=True), op.inv_quad_logdet(a["rhs"], logdet=True)]
+            finally:
+                settings.deterministic_probes.probe_vectors = None
+    if name in ("methods", "methods_tiny"):
+        out = []
+        for f in ([lambda m=m: op.root_decomposition(method=m).root.to_dense() for m in ("symeig", "diagonalization", "svd", "pivoted_cholesky", "lanczos")]
+                  + [lambda m=m: op.root_inv_decomposition(method=m).root.to_dense() for m in ("symeig", "diagonalization", "svd", "pinverse", "lanczos")]
+                  + [lambda: op.diagonalization(), lambda: op.eigvalsh(), lambda: op.inverse().to_dense(), lambda: op.sqrt().to_dense(),
+                     lambda: op.exp().to_dense(), lambda: op.log().to_dense(), lambda: op.abs().to_dense()]):
+            try:
+                out.append(f())
+            except Exception as e:  # noqa  (unsupported on this class: not this property's business - but a refused in-place write is)
+                if any(k in str(e) for k in ("refers to a single memory location", "is being used in an in-place operation", "in-place operation")):
+                    raise
+        return out
     # ---- utilities
     M = a.get("mat")
     if name == "linear_cg":
@@ -215,6 +236,15 @@ def run_case(case):
         op = bind.build(case["term"], dtype, leaves)
         for i, t in enumerate(leaves):
             cells.add("operator tensor #%d" % i, t)
+    if case["op"] == "methods_tiny" and op is not None:
+        # the same operator in units of 1e-9 (all entries below the 1e-7 clamps used by some decompositions): it exists before the call,
+        # so neither its defining tensors nor its matrix may change
+        try:
+            op = op * 1e-9
+            for i, t in enumerate(a_ for a_ in list(op._args) + list(op._kwargs.values()) if torch.is_tensor(a_)):
+                cells.add("tensor #%d of the scaled operator" % i, t)
+        except Exception:  # noqa
+            pass
     args = {}
     for role, lay in zip(case["roles"], case["layouts"]):
         x = _base_value(role, N, batch, dtype, case["seed"] + len(args), None if op is None else tuple(op.shape))
